@@ -355,7 +355,8 @@ def main():
     from dulwich.refs import NamespacedRefsContainer
     NS_OPS = [("set", b"refs/heads/x", A), ("set", b"refs/heads/x", B), ("set", b"refs/tags/t", B), ("cas", b"refs/heads/x", A, B),
               ("cas0", b"refs/heads/x", A), ("new", b"refs/tags/t", A), ("del", b"refs/heads/x"), ("delif", b"refs/heads/x", B),
-              ("pack",), ("reopen",)]
+              ("pack",), ("reopen",), ("sym", b"refs/heads/s", b"refs/heads/x")]
+    NS_S, NS_X = b"refs/heads/s", b"refs/heads/x"
     ns_len = 3 if tier == "quick" else 4
     with tempfile.TemporaryDirectory() as d3:
         for kind in ("disk", "dict"):
@@ -373,10 +374,14 @@ def main():
                 base[OUT] = B
                 ns = NamespacedRefsContainer(base, b"foo")
                 model = {}
+                sym_set = False
                 why = None
                 for o in seq:
                     op = NS_OPS[o]
-                    if op[0] == "set":
+                    if op[0] == "sym":
+                        ns.set_symbolic_ref(op[1], op[2])
+                        sym_set = True
+                    elif op[0] == "set":
                         ns[op[1]] = op[2]
                         model[op[1]] = op[2]
                     elif op[0] == "cas":
@@ -416,20 +421,32 @@ def main():
                         base = DiskRefsContainer(p_)
                         ns = NamespacedRefsContainer(base, b"foo")
                     if why is None:
+                        exp = dict(model)
+                        if sym_set and NS_X in model:
+                            exp[NS_S] = model[NS_X]          # a symbolic ref reads as its target; dangling: KeyError, not listed by as_dict
                         try:
-                            seen = {k: ns[k] for k in ns.allkeys()}
+                            keys = set(ns.allkeys())
+                            seen = {}
+                            for k in keys:
+                                try:
+                                    seen[k] = ns[k]
+                                except KeyError:
+                                    pass
                             asd = ns.as_dict()
-                            cont = {k for k in (b"refs/heads/x", b"refs/tags/t", OUT) if k in ns}
+                            cont = {k for k in (NS_X, b"refs/tags/t", OUT) if k in ns}
                             under = {k: v for k, v in base.as_dict().items()}
+                            syms = ns.get_symrefs()
                         except Exception as ex:  # noqa: BLE001
                             why = f"reading through the view raised {ex!r}"
                         else:
-                            exp_under = {b"refs/namespaces/foo/" + k: v for k, v in model.items()}
+                            exp_under = {b"refs/namespaces/foo/" + k: v for k, v in exp.items()}
                             exp_under[OUT] = B
-                            if seen != model or asd != model or cont != set(model):
-                                why = f"view shows {seen} / as_dict {asd} / contains {sorted(cont)}, model {model}"
+                            if seen != exp or asd != exp or cont != set(model) or keys != set(model) | ({NS_S} if sym_set else set()):
+                                why = f"view shows {seen} / as_dict {asd} / contains {sorted(cont)} / keys {sorted(keys)}, model {exp}"
                             elif under != exp_under:
                                 why = f"underlying container holds {under}, expected {exp_under}"
+                            elif syms != ({NS_S: NS_X} if sym_set else {}):
+                                why = f"get_symrefs through the view gives {syms}"
                             elif any(ns.read_loose_ref(k) is None and ns.get_packed_refs().get(k) != v for k, v in model.items()):
                                 why = f"a ref of the view is neither loose nor in the view's packed refs {ns.get_packed_refs()}"
                     if why is not None:
